@@ -189,7 +189,8 @@ Section File.
 
   (** the lines between two tables, apart from the next-set test (which the file structure provides) *)
   Record inter_shape (inter : list str) (hdr name : str) : Prop := {
-    ish_split : exists nk kc bl, inter = nk ++ kc :: bl /\ Forall not_kcyc nk /\ is_kcyc kc = true /\ Forall (fun l => is_blank l = true) bl;
+    ish_split : exists blocks nk kc bl, inter = concat blocks ++ nk ++ kc :: bl /\ Forall mblock blocks /\ Forall not_kcyc nk /\ is_kcyc kc = true
+                                        /\ Forall (fun l => is_blank l = true) bl;
     ish_hdr : is_blank hdr = false;
     ish_mass : str_eqb (fstrip hdr) mass_flow_title = false;
     ish_type : table_type_T2 (firstn 3 (split_ws (fstrip hdr))) = Ok (Some name)
@@ -199,10 +200,9 @@ Section File.
   Lemma inters_from_shape sets k x its tailx : Forall set_ok sets -> nth_error sets k = Some x -> inters_shape its ->
     inters_ok (positions sets) (Z.of_nat k) its (tailx ++ file_from (skipn (S k) sets)).
   Proof.
-    intros Hok Hk. induction 1 as [|[inter t] its [[nk [kc [bl [E [H1 [H2 H3]]]]]] Hh Hm Ht] _ IH]; cbn [inters_ok]; [exact I|].
-    cbn [fst snd] in *. split; [|exact IH]. split; [|exact Hh|exact Hm|exact Ht].
-    exists nk, kc, bl. repeat split; try assumption.
-    rewrite rest_lines_app. rewrite app_assoc. rewrite app_comm_cons. rewrite app_assoc.
+    intros Hok Hk. induction 1 as [|[inter t] its [Hsp Hh Hm Ht] _ IH]; cbn [inters_ok]; [exact I|].
+    cbn [fst snd] in *. split; [|exact IH]. split; [exact Hsp| |exact Hh|exact Hm|exact Ht].
+    intro c. rewrite rest_lines_app. rewrite app_assoc. rewrite app_comm_cons. rewrite app_assoc.
     apply (past_inside sets k x _ Hok Hk).
   Qed.
 End File.
